@@ -319,8 +319,72 @@ fn note_panic(payload: Box<dyn std::any::Any + Send>) {
 }
 static UNEXPECTED_MSG: std::sync::Mutex<String> = std::sync::Mutex::new(String::new());
 
+/// Captured by an action: the last owner of a companion registration, which its Drop removes - a Drop that calls back
+/// into the registry, as the Drop of the last iterator `Handle` does.
+struct ReentersOnDrop(Option<signal_hook_registry::SigId>);
+
+impl Drop for ReentersOnDrop {
+    fn drop(&mut self) {
+        if let Some(id) = self.0.take() {
+            signal_hook_registry::unregister(id);
+        }
+    }
+}
+
+/// Removal calls whose dropped state re-enters the registry must return like any other (forked child, deadlock verdict).
+fn reentrant_drop_probe() -> Option<(String, String)> {
+    let res = crate::fork::probe_ex(30_000, false, true, |fd| {
+        use crate::fork::wr;
+        for round in 0..3 {
+            let companion = unsafe { signal_hook_registry::register(libc::SIGUSR2, || ()) }.ok();
+            let g = ReentersOnDrop(companion);
+            let id = match unsafe { signal_hook_registry::register(libc::SIGUSR1, move || { let _ = &g; }) } {
+                Ok(id) => id,
+                Err(_) => return 20,
+            };
+            wr(fd, &format!("STEP unregister #{}\n", round));
+            if !signal_hook_registry::unregister(id) {
+                wr(fd, "BAD unregister returned false\n");
+            }
+            // the same through unregister_signal and through an iterator instance whose last handle an action owns
+            let companion = unsafe { signal_hook_registry::register(libc::SIGUSR2, || ()) }.ok();
+            let g = ReentersOnDrop(companion);
+            let _ = unsafe { signal_hook_registry::register(libc::SIGUSR1, move || { let _ = &g; }) };
+            wr(fd, &format!("STEP unregister_signal #{}\n", round));
+            #[allow(deprecated)]
+            signal_hook_registry::unregister_signal(libc::SIGUSR1);
+            if let Ok(inst) = signal_hook::iterator::Signals::new([libc::SIGHUP]) {
+                let h = inst.handle();
+                drop(inst);
+                // `h` is now the last owner of the instance; an action owns it
+                if let Ok(id) = unsafe { signal_hook_registry::register(libc::SIGUSR1, move || { let _ = &h; }) } {
+                    wr(fd, &format!("STEP unregister of an action that owns the last handle #{}\n", round));
+                    signal_hook_registry::unregister(id);
+                }
+            }
+        }
+        wr(fd, "DONE\n");
+        0
+    });
+    let last = res.out.lines().filter(|l| l.starts_with("STEP ")).last().unwrap_or("").to_string();
+    match res.end {
+        crate::fork::End::Exit(0) if res.out.contains("DONE") && !res.out.contains("BAD") => None,
+        crate::fork::End::Deadlocked(why) => Some(("removal-deadlocks-when-dropped-state-reenters-registry".into(), format!(
+            "a removal call never returns although no delivery is in flight: {} (last step: {}); what the removed action captured calls the registry from its Drop (here: removes a companion registration / is the last Handle of an iterator instance) while the removal still holds the registry's writer lock", why, last))),
+        other => Some(("reentrant-drop-probe".into(), format!("probe ended {:?} after {}", other, last))),
+    }
+}
+
 fn free_mode(seed: u64, rounds: u64, round_ms: u64) -> i32 {
     crate::set_thread(1, class::MAIN);
+    // reported, and the free-running part below still runs (its mutators never capture such state)
+    let probe_violation = match reentrant_drop_probe() {
+        Some((sig, detail)) => {
+            emit_violation("C18", &sig, &detail);
+            1u64
+        }
+        None => 0,
+    };
     director::install();
     director::set_observer(Some(observer));
     std::panic::set_hook(Box::new(|_| {}));
@@ -598,9 +662,10 @@ fn free_mode(seed: u64, rounds: u64, round_ms: u64) -> i32 {
         .set("concurrent_first_registrations", J::u(first_regs.load(Ordering::SeqCst)))
         .set("signals_sent", J::u(sent))
         .set("barrier_spins", J::u(SPINS.load(Ordering::SeqCst)))
-        .set("violations", J::u((unexpected > 0) as u64))
+        .set("reentrant_drop_probe_violations", J::u(probe_violation))
+        .set("violations", J::u((unexpected > 0) as u64 + probe_violation))
         .set("wall_ms", J::u(crate::now_ms() - t0)));
-    if unexpected > 0 { 1 } else { 0 }
+    if unexpected > 0 || probe_violation > 0 { 1 } else { 0 }
 }
 
 pub fn main(args: &[String]) -> i32 {
